@@ -23,7 +23,10 @@ func RemoveTempName(in string) string {
 }
 
 func EscapeDotGraph(in string) string {
-	res := strings.ReplaceAll(in, "<", "\\<")
-	res = strings.ReplaceAll(res, ">", "\\>")
+	// characters with a meaning in a quoted DOT string or in a record label
+	res := in
+	for _, ch := range []string{"<", ">", "{", "}", "|", "\""} {
+		res = strings.ReplaceAll(res, ch, "\\"+ch)
+	}
 	return res
 }
